@@ -136,8 +136,19 @@ pub fn gen_tree(r: &mut Rng, cfg: &TreeCfg, vs: &[Var]) -> Tree {
             let target = pick(r, &pool);
             if r.chance(0.5) { target.remap_xyz(pick(r, &pool), pick(r, &pool), pick(r, &pool)) }
             else {
+                // exact identities too: Affine3::identity() itself, and a translation followed by its opposite
+                // (the collapsed matrix is the identity exactly), whose frame equals the enclosing one
+                if r.chance(0.12) {
+                    let t1 = if r.chance(0.5) { target.remap_affine(Affine3::identity()) } else {
+                        let mut m = Matrix4::<f32>::identity(); for i in 0..3 { m[(i, 3)] = gen_tame(r); }
+                        let mut n = Matrix4::<f32>::identity(); for i in 0..3 { n[(i, 3)] = -m[(i, 3)]; }
+                        target.remap_affine(Affine3::from_matrix_unchecked(m)).remap_affine(Affine3::from_matrix_unchecked(n)) };
+                    let sib = pick(r, &pool);
+                    if r.chance(0.5) { tree_bin(&t1, *r.pick(&[BinaryOpcode::Add, BinaryOpcode::Min, BinaryOpcode::Sub, BinaryOpcode::Mul]), sib) } else { t1 }
+                } else {
                 let t1 = target.remap_affine(if r.chance(0.4) { mats[r.below(2)] } else { gen_affine(r) });
                 if r.chance(0.4) { t1.remap_affine(if r.chance(0.4) { mats[r.below(2)] } else { gen_affine(r) }) } else { t1 }   // consecutive affines collapse
+                }
             }
         } else if r.chance(0.35) { let a = pick(r, &pool); tree_un(&a, *r.pick(&uops)) }
         else { let a = pick(r, &pool); let b = pick(r, &pool); tree_bin(&a, *r.pick(&bops), b) };
@@ -242,9 +253,15 @@ pub fn tree_case(r: &mut Rng, cmd: &str, remaps: usize) -> TreeResult {
     let mut fails = vec![];
     // ---- implementation: import into a fresh context
     let mut ctx = Context::new();
-    let node = ctx.import(&tree);
-    let impl_line = format!("node {} | arena {}", node.verif_index(), fmt_arena(&ctx, &vs));
     let case = format!("{cmd} {table} {root}");
+    // a panic inside import is a failing input of its own (the tree is the replay), not a harness crash
+    let node = match std::panic::catch_unwind(std::panic::AssertUnwindSafe(|| ctx.import(&tree))) {
+        Ok(n) => n,
+        Err(e) => { let msg = e.downcast_ref::<String>().cloned().or_else(|| e.downcast_ref::<&str>().map(|s| s.to_string())).unwrap_or_default();
+            fails.push(format!("kind=import-panic Context::import panicked: {}", msg.chars().take(160).collect::<String>()));
+            return TreeResult { case, impl_line: "node ? | arena ?".into(), fails, has_remap: remaps > 0, too_shared: false }; }
+    };
+    let impl_line = format!("node {} | arena {}", node.verif_index(), fmt_arena(&ctx, &vs));
     // ---- (C) dedup and round trips
     let again = ctx.import(&tree);
     if again != node { fails.push(format!("kind=dedup importing the same tree twice gave nodes {} and {}", node.verif_index(), again.verif_index())); }
